@@ -53,6 +53,18 @@ GROUPS = {
     ("src/arch/all/packedpair/mod.rs", r"impl Pair \{", "Pair", ["with_indices", "index1", "index2"])],
   "Searcher": [
     ("src/memmem/searcher.rs", None, "searcher", ["do_packed_search"])],
+  "IterHint": [
+    ("src/memmem/mod.rs", r"impl<'h, 'n> Iterator for FindIter<'h, 'n> \{", "FindIter", ["size_hint"]),
+    ("src/arch/generic/memchr.rs", r"impl<'h> Iter<'h> \{", "Iter", ["size_hint"])],
+}
+
+# Views: structs that hold pointers / other structs are seen through the fields the kernels use.
+# name -> (file, [(field, type as the kernel sees it)], {aliased expression: field})
+# Every viewed field must exist in the struct definition in the source (checked).
+VIEWS = {
+    "FindIter": ("src/memmem/mod.rs", [("haystack", "&[u8]"), ("pos", "usize"), ("needle", "&[u8]")],
+                 {"self.finder.needle()": "needle"}, ["haystack", "pos", "finder"]),
+    "Iter": ("src/arch/generic/memchr.rs", [("start", "usize"), ("end", "usize")], {}, ["start", "end"]),
 }
 
 # structs whose definitions are read from the source: name -> file
@@ -64,7 +76,9 @@ STRUCTS = {
     "Mask": {"SensibleMoveMask": "src/vector.rs", "NeonMoveMask": "src/vector.rs"},
     "Pair": {"Pair": "src/arch/all/packedpair/mod.rs"},
     "Searcher": {},
+    "IterHint": {},
 }
+VIEW_GROUPS = {"IterHint": ["FindIter", "Iter"]}
 # type hints for locals whose type Rust infers backwards
 LOCAL_HINTS = {("ApproximateByteSet", "new", "bits"): "u64"}
 
@@ -450,6 +464,7 @@ class Tr:
         self.structs, self.fnsigs, self.prefix, self.fn, self.what = structs, fnsigs, prefix, fn, what
         self.n = 0
         self.selfty = prefix if fn["selfmode"] else None
+        self.aliases = VIEWS[prefix][2] if prefix in VIEWS else {}
 
     def fresh(self, base="t"):
         self.n += 1
@@ -514,7 +529,10 @@ class Tr:
         if k == "tuple":
             if not e[1]:
                 return R("tt", True, "()")
-            rs = [self.expr(x, env) for x in e[1]]
+            wants = split_tuple(want) if want and want.startswith("(") else [None] * len(e[1])
+            if len(wants) != len(e[1]):
+                wants = [None] * len(e[1])
+            rs = [self.expr(x, env, wt) for x, wt in zip(e[1], wants)]
             return self.bind_all(rs, lambda ps: R("(" + ", ".join(p.text for p in ps) + ")", True,
                                                    "(" + ",".join(p.ty for p in ps) + ")"))
         if k == "field":
@@ -663,9 +681,21 @@ class Tr:
         "wrapping_mul": ("wr_mul {b} {a} {x}", 1),
     }
 
+    def render(self, e):
+        if e[0] == "path":
+            return "::".join(e[1])
+        if e[0] == "field":
+            return self.render(e[1]) + "." + e[2]
+        if e[0] == "mcall" and not e[3]:
+            return self.render(e[1]) + "." + e[2] + "()"
+        return "?"
+
     def mcall(self, e, env, want):
         recv, name, args = e[1], e[2], e[3]
         w = self.what
+        al = self.aliases.get(self.render(e))
+        if al:
+            return self.expr(("field", ("path", ["self"]), al), env, want)
         # slice.len()
         rr = self.expr(recv, env, want if name.startswith(("saturating", "wrapping")) else None)
         def f(p):
@@ -683,6 +713,12 @@ class Tr:
                     ra = self.expr(args[0], env, "u32")
                     fn_ = "wr_shl" if name == "wrapping_shl" else "wr_shr"
                     return self.bind(ra, lambda pa: R(f"({fn_} {b} {p.text} {pa.text})", True, p.ty))
+                if name in ("checked_add", "checked_sub") and len(args) == 1:
+                    ra = self.expr(args[0], env, p.ty)
+                    t = "chk_add_opt {b} {a} {x}" if name == "checked_add" else "chk_sub_opt {a} {x}"
+                    return self.bind(ra, lambda pa: R("(" + t.format(b=b, a=p.text, x=pa.text) + ")", True, f"Option<{p.ty}>"))
+                if name == "as_usize" and not args and p.ty == "usize":
+                    return R(p.text, True, "usize")
                 if name == "trailing_zeros" and not args:
                     return R(f"(N.of_nat (ctz {b} {p.text}))", True, "u32")
                 if name == "leading_zeros" and not args:
@@ -756,7 +792,37 @@ class Tr:
                 return R(f"(if {fits} then (let {v} := {p.text} in {ok.mon()}) else {err.mon()})", False,
                          ok.ty if ok.ty != "?" else err.ty)
             return self.bind(r, f)
-        raise TieBroken(f"{w}: unsupported match")
+        r = self.expr(scrut, env)
+        def g(p):
+            if p.ty.startswith("Option<"):
+                inner = p.ty[7:-1]
+                some = [a for a in arms if a[0][0] == "pctor" and a[0][1] == "Some"]
+                none = [a for a in arms if a[0] == ("pvar", "None")]
+                if len(arms) != 2 or len(some) != 1 or len(none) != 1:
+                    raise TieBroken(f"{w}: match on an Option must have exactly the arms None and Some(x)")
+                v = self.fresh(some[0][0][2])
+                env2 = {k_: list(x) for k_, x in env.items()}
+                env2.setdefault(some[0][0][2], []).append((v, inner))
+                rs_ = self.expr(some[0][1], env2, want)
+                rn = self.expr(none[0][1], env, want)
+                ty = rs_.ty if "?" not in rs_.ty else rn.ty
+                return R(f"(match {p.text} with Some {v} => {rs_.mon()} | None => {rn.mon()} end)", False, ty)
+            if p.ty in INT_BITS:
+                if not arms or arms[-1][0][0] != "pvar" or any(a[0][0] != "plit" for a in arms[:-1]):
+                    raise TieBroken(f"{w}: integer match must be literal arms followed by one binding arm")
+                v = self.fresh(arms[-1][0][1])
+                env2 = {k_: list(x) for k_, x in env.items()}
+                env2.setdefault(arms[-1][0][1], []).append((v, p.ty))
+                last = self.expr(arms[-1][1], env2, want)
+                t, ty = f"(let {v} := {p.text} in {last.mon()})", last.ty
+                for a in reversed(arms[:-1]):
+                    ra = self.expr(a[1], env, want)
+                    t = f"(if (N.eqb {p.text} {a[0][1]}%N) then {ra.mon()} else {t})"
+                    if "?" in ty:
+                        ty = ra.ty
+                return R(t, False, ty)
+            raise TieBroken(f"{w}: unsupported match on type {p.ty}")
+        return self.bind(r, g)
 
     # ---- statements with continuation; returns monadic R computing the function result
     def finish(self, val, env):
@@ -932,6 +998,21 @@ class Tr:
         r2 = cont(env4)
         return R(f"({v} <-- rfold (fun {a} {x} => {bodyr.mon()}) {r.text} {cur[0]};;\n  {r2.mon()})", False, "ret")
 
+def split_tuple(ty):
+    inner, parts, depth, cur = ty[1:-1], [], 0, ""
+    for c in inner:
+        if c in "(<":
+            depth += 1
+        if c in ")>":
+            depth -= 1
+        if c == "," and depth == 0:
+            parts.append(cur); cur = ""
+        else:
+            cur += c
+    if cur:
+        parts.append(cur)
+    return parts
+
 def coq_type(ty, structs, what):
     if ty in INT_BITS:
         return "N"
@@ -945,6 +1026,8 @@ def coq_type(ty, structs, what):
         return "(list N)"
     if ty.startswith("Option<") and ty.endswith(">"):
         return f"(option {coq_type(ty[7:-1], structs, what)})"
+    if ty.startswith("(") and ty.endswith(")") and "," in ty:
+        return "(" + " * ".join(coq_type(t, structs, what) for t in split_tuple(ty)) + ")"
     if ty.startswith("&"):
         return coq_type(ty[1:], structs, what)
     raise TieBroken(f"{what}: unsupported type {ty!r}")
@@ -982,6 +1065,16 @@ def translate(repo, group):
     structs = {}
     for name, rel in STRUCTS[group].items():
         structs[name] = read_struct(src(rel), name, f"{rel}: struct {name}")
+    for vname in VIEW_GROUPS.get(group, []):
+        vrel, vfields, _, must = VIEWS[vname]
+        sm_ = re.search(r"\bstruct %s\b[^{;]*\{" % re.escape(vname), src(vrel))
+        if not sm_:
+            raise TieBroken(f"{vrel}: struct {vname} not found")
+        sbody = src(vrel)[sm_.end() - 1:match_brace(src(vrel), sm_.end() - 1, vname)]
+        for f in must:
+            if not re.search(r"\b%s\s*:" % re.escape(f), sbody):
+                raise TieBroken(f"{vrel}: struct {vname} has no field {f} any more")
+        structs[vname] = vfields
     parsed = []
     fnsigs = {}
     for rel, cont, prefix, names in GROUPS[group]:
